@@ -555,10 +555,17 @@ func ExecuteConc(t *testing.T, plan *Plan, opts Opts) *RunResult {
 	res.Stats.Runs = 1
 	var conc *concResult
 	var infra string
+	dav := plan.Config.Server == "caldav" || plan.Config.Server == "carddav"
 	res.Bubble = rt.Bubble(t, func() {
-		conc, infra = runTasks(plan, plan.Tasks, opts.Base, res.Log)
+		if dav {
+			conc, infra = runDavTasks(plan, plan.Tasks, res.Log)
+		} else {
+			conc, infra = runTasks(plan, plan.Tasks, opts.Base, res.Log)
+		}
 	})
-	simos.Hook = nil
+	if !res.Bubble.Stuck {
+		simos.Hook = nil
+	}
 	add := func(v Violation) {
 		if opts.Own == "" || v.Prop == opts.Own {
 			res.Violations = append(res.Violations, v)
@@ -569,6 +576,17 @@ func ExecuteConc(t *testing.T, plan *Plan, opts Opts) *RunResult {
 	}
 	if res.Bubble.Panic != nil {
 		res.Infra = "panic in the harness: " + res.Bubble.PanicText
+		return res
+	}
+	if res.Bubble.Stuck {
+		res.Stats.Deadlocks++
+		res.Stuck = true
+		lib := rt.LibraryGoroutines(res.Bubble.Stacks)
+		if len(lib) == 0 {
+			res.Infra = "a concurrent run made no progress for " + rt.StuckAfter.String() + " and no goroutine is inside the library:\n" + firstLines(res.Bubble.Stacks, 80)
+			return res
+		}
+		add(Violation{Prop: "C18", Clause: "interference", Class: "stuck " + stuckClass(lib), Msg: fmt.Sprintf("the concurrent run made no progress for %v of real time: a request of one task waits for something (typically a lock) that another task's request holds while that one waits for its own client. Goroutines inside the library:\n%s", rt.StuckAfter, firstLines(strings.Join(lib, "\n\n"), 70))})
 		return res
 	}
 	if res.Bubble.Deadlock || res.Bubble.Leftover {
@@ -601,7 +619,11 @@ func ExecuteConc(t *testing.T, plan *Plan, opts Opts) *RunResult {
 		var solo *concResult
 		var sinfra string
 		b := rt.Bubble(t, func() {
-			solo, sinfra = runTasks(plan, []TaskPlan{tp}, opts.Base, nil)
+			if dav {
+				solo, sinfra = runDavTasks(plan, []TaskPlan{tp}, nil)
+			} else {
+				solo, sinfra = runTasks(plan, []TaskPlan{tp}, opts.Base, nil)
+			}
 		})
 		simos.Hook = nil
 		if b.Panic != nil || sinfra != "" {
@@ -613,6 +635,9 @@ func ExecuteConc(t *testing.T, plan *Plan, opts Opts) *RunResult {
 			return res
 		}
 		class := fmt.Sprintf("tasks=%d", len(plan.Tasks))
+		if dav {
+			class = plan.Config.Server + " " + class
+		}
 		co, so := conc.obs[i], solo.obs[0]
 		for k := 0; k < len(co) || k < len(so); k++ {
 			var a, bb string
@@ -628,7 +653,7 @@ func ExecuteConc(t *testing.T, plan *Plan, opts Opts) *RunResult {
 				return res
 			}
 		}
-		if d := model.DiffSnap(solo.final[0], conc.final[i]); d != "" {
+		if d := model.DiffSnap(solo.final[0], conc.final[i]); d != "" && !dav {
 			add(Violation{Prop: "C18", Clause: "interference", Class: class + " final-tree",
 				Msg: fmt.Sprintf("task %d: its subtree after the concurrent run differs from the one after its solo run: %s", tp.ID, d)})
 			return res
@@ -636,6 +661,16 @@ func ExecuteConc(t *testing.T, plan *Plan, opts Opts) *RunResult {
 		res.Stats.NT(fmt.Sprintf("C18|conc|%s", conc.order))
 	}
 	return res
+}
+
+// stuckClass names what the stuck library goroutines wait in.
+func stuckClass(lib []string) string {
+	for _, g := range lib {
+		if strings.Contains(g, "sync.(*Mutex).Lock") || strings.Contains(g, "sync.(*RWMutex)") {
+			return "on-a-lock"
+		}
+	}
+	return "elsewhere"
 }
 
 func opName(tp *TaskPlan, k int) string {
